@@ -5,6 +5,7 @@ import Driver.Conv
 import Driver.MdsData
 import Ctrmml.Model.MdsFile
 import Ctrmml.Spec.MdsResolve
+import Ctrmml.Spec.MdsFrag
 namespace Driver.MdsFileD
 open Ctrmml Ctrmml.Mds Ctrmml.MdsFile Driver Tables
 
@@ -80,6 +81,19 @@ def indexBearing (l : List MEv) : Bool :=
     ∨ e.type = mds_DMFINISH ∨ e.type = mds_FINISH ∨ e.type = mds_JUMP ∨ (e.type = mds_FLG ∧ e.arg < 0x80)
     ∨ (mds_NOTE ≤ e.type ∧ e.type < mds_SLR)
 
+/-- which of the decidable residual hypotheses of `C09_full_partial` (`Spec/MdsFrag.fullPartialHyps`)
+the model's export of this request meets: `H=1`, or `H=0:<first one that fails>` -/
+def hypsOf (inp : Input) : String :=
+  match exportMds MdsData.Arith.float inp with
+  | .error _ => "H=-"
+  | .ok o =>
+    let b := o.built
+    if fullPartialHyps inp.song b then "H=1"
+    else if !decide ((inp.song.tracks.map (·.1)).Pairwise (· < ·)) then "H=0:unsorted"
+    else if b.trackList.isEmpty then "H=0:notracks"
+    else if !(b.trackList.map (·.2) ++ b.conv.subList).all MdsRead.fragB then "H=0:frag"
+    else "H=0:len"
+
 def judge (arg impl : String) : String :=
   match parseReq arg with
   | none => "skip"
@@ -102,7 +116,7 @@ def judge (arg impl : String) : String :=
             | some s => if !s.isEmpty ∧ s.all Char.isDigit ∧ (s.length = 1 ∨ s.front ≠ '0') then s.toNat? else none
             | none => some 0
           match MdsResolve.checkFile b r.inp.song (expectOf d) vol (r.inp.group.toUTF8.toList.map (·.toNat)) with
-          | .ok _ => "ok"
+          | .ok _ => "ok " ++ hypsOf r.inp
           | .error e => "fail " ++ e
 
 def handlers : List Driver.Handler := [{ cmd := "mds", model := model, judge := judge }]
